@@ -184,7 +184,24 @@ func genC15WL(t *rapid.T) c15WLCase {
 	}
 	base := netip.AddrFrom4([4]byte{127, byte(rapid.IntRange(0, 3).Draw(t, "b1")), byte(rapid.IntRange(0, 2).Draw(t, "b2")), byte(rapid.IntRange(0, 255).Draw(t, "b3"))})
 	var lo, hi *big.Int
-	switch rapid.IntRange(0, 4).Draw(t, "kind") {
+	switch rapid.IntRange(0, 5).Draw(t, "kind") {
+	case 5:
+		// a whitelist in IPv6 notation that lies below the mapped block, while its last four bytes - read alone - enclose
+		// the IPv4 clients: every IPv4 client (::ffff:127.x.y.z) is outside of it
+		switch rapid.IntRange(0, 2).Draw(t, "v6low") {
+		case 0:
+			lo, hi = addrBig(netip.MustParseAddr("::1")), addrBig(netip.MustParseAddr("::7fff:fffe"))
+			c.Spec = "::1-::7fff:fffe"
+		case 1:
+			lo, hi, _ = blockBounds(netip.MustParseAddr("::7f00:0"), 104)
+			c.Spec = "::7f00:0/104"
+		default:
+			lo, hi = addrBig(netip.MustParseAddr("::7f00:0")), addrBig(netip.MustParseAddr("::7f00:ffff"))
+			c.Spec = "::7f00:0-::7f00:ffff"
+		}
+		c.Lo, c.Hi = lo.String(), hi.String()
+		c.Addrs = []string{"127.0.0.1", fmt.Sprintf("127.0.%d.%d", rapid.IntRange(0, 2).Draw(t, "v6low-b2"), rapid.IntRange(1, 254).Draw(t, "v6low-b3"))}
+		return c
 	case 0:
 		c.Spec = base.String()
 		lo, hi = addrBig(base), addrBig(base)
